@@ -334,10 +334,11 @@ example : ColOK [120] ∧ CellWF (.str [97, 44, 34, 98]) := by
     the writer's decimal symbol `wdec` either `.` or the one the reader uses (`setDecimal`), every string of type
     characters and every non-empty row with one cell per type character — in an `s` column **any** string without
     NUL / line break (separators, quotes, outer blanks, empty, and strings that spell numbers, which the untyped
-    reader cannot tell from numbers), in an `n` column any number text free of the reader's decimal symbol, anything
-    in a column whose character matches no case — parsing the written row and typing it gives back the strings byte
-    for byte and `myatof` of the number texts as written (exact value: `csv_number_exact_Q`); cells of unmatched
-    columns are dropped, as the switch has no default.  (`i` columns: model and correspondence check only.) -/
+    reader cannot tell from numbers), in an `n` column any number text free of the reader's decimal symbol, in an `i` column any decimal integer text
+    `[-]digits` below 2^31 in magnitude (`myatoi`'s `unsigned` accumulator does not wrap on it), anything in a column
+    whose character matches no case — parsing the written row and typing it gives back the strings byte
+    for byte and `myatof` of the number texts as written (exact value: `csv_number_exact_Q`), the integers exactly (`intValue`, the
+    decimal reading of the text); cells of unmatched columns are dropped, as the switch has no default. -/
 theorem csv_typed_row (sep : UInt8) (hsep : sep ≠ 34) (wdec rdec : UInt8) (hd : wdec = 46 ∨ wdec = rdec)
     (types : List Csv.ColType) (c : Cell) (t : List Cell)
     (hok : ∀ x ∈ c :: t, CellOK sep (Csv.localize wdec x))
@@ -350,6 +351,11 @@ theorem csv_typed_row (sep : UInt8) (hsep : sep ≠ 34) (wdec rdec : UInt8) (hd 
     string, `1.5` is written `1,5` and read as the number 1.5, the third cell is dropped -/
 example : Csv.typedRow 44 [.str, .num, .skip] (parseRow 59 (Csv.rowTextG 59 44 [.str [48, 48, 55], .num [49, 46, 53], .str [120]]))
     = [.str [48, 48, 55], .num ⟨false, 15, -1⟩] := by decide
+
+/-- `-12` in an `i` column is the integer −12 -/
+example : AslProofs.Csv.Fits 46 .int (.num [45, 49, 50]) ∧ AslProofs.Csv.intValue [45, 49, 50] = -12 := by
+  refine ⟨⟨true, [49, 50], rfl, by decide, ?_, by decide⟩, by decide⟩
+  intro c hc; simp at hc; rcases hc with rfl | rfl <;> decide
 
 example : AslProofs.Csv.FitsAll 44 [.str, .num, .skip] [.str [48, 48, 55], .num [49, 46, 53], .str [120]] ∧
     ∀ x ∈ [Cell.str [48, 48, 55], .num [49, 46, 53], .str [120]], CellOK 59 (Csv.localize 44 x) := by
